@@ -14,11 +14,12 @@ def attempt(name, f):
         f(); print("translator", name, "ok")
     except Exception:
         rc = 1; print("translator", name, "FAILED"); traceback.print_exc()
-import gen_limits, gen_hostcosts, gen_costs, gen_cbor_schemas
+import gen_limits, gen_hostcosts, gen_costs, gen_cbor_schemas, gen_chain_schemas
 attempt("gen_limits", lambda: gen_limits.generate(repo, os.path.join(gen, "Limits.v")))
 attempt("gen_hostcosts", lambda: gen_hostcosts.generate(repo, os.path.join(gen, "HostCosts.v")))
 attempt("gen_costs", lambda: gen_costs.generate(repo, gen))
 attempt("gen_cbor_schemas", lambda: gen_cbor_schemas.generate(repo, os.path.join(gen, "CborSchemas.v")))
+attempt("gen_chain_schemas", lambda: gen_chain_schemas.generate(repo, os.path.join(gen, "ChainSchemas.v")))
 def txcost():
     from checks import c06_txcost
     src = open(os.path.join(repo, "rust-src/concordium_base/src/transactions.rs")).read()
